@@ -118,3 +118,36 @@ func H_C06_reject() {
 	NoPanic(id, func() { err = e.K.StakingHooks().BeforeValidatorSlashed(e.Ctx, Vals[0], f) })
 	nd.Assert(id, nd.And(err != nil, e.Store.Writes == w0))
 }
+
+// H_C06_redel: the slash of validator 0 while a redelegation out of it (into validator 1) is still
+// pending. The value taken from the destination position is redistributed, never destroyed: the
+// destination validator keeps its validator shares (only its delegator-share total and the
+// position shrink, which is C07's subject), the asset's staked total and custody are unchanged,
+// the asset's share total drops by exactly the slashed validator's x = shares*f, and the
+// co-delegator on the destination keeps its shares. (Totality of the callback is C08's subject.)
+func H_C06_redel() {
+	id := "C06.redel"
+	st := Build([]Pos{{0, 0, 0}, {0, 1, 0}, {1, 1, 0}}, Opts{NVals: 3})
+	e := st.E
+	c1 := nd.TimeRange("c1", TLo, THi)
+	InstallRedelegation(e, 0, 0, 1, 0, nd.IntRange("r1", "1", Pow30), c1)
+	f := nd.DecRange("fraction", "0.000000000000000001", "1")
+	nd.Hint(f.Equal(math.LegacyNewDecWithPrec(5, 1)))
+	as0, _ := e.K.GetAssetByDenom(e.Ctx, Denoms[0])
+	preVS0, preVS1, preVS2 := valShares(e, 0, Denoms[0]), valShares(e, 1, Denoms[0]), valShares(e, 2, Denoms[0])
+	preCust := moduleBal(e, Denoms[0])
+	preOther, _ := delegationShares(e, Pos{1, 1, 0})
+	var err error
+	if Caught(func() { err = e.K.StakingHooks().BeforeValidatorSlashed(e.Ctx, Vals[0], f) }) || err != nil {
+		return
+	}
+	nd.Reach(id)
+	as1, _ := e.K.GetAssetByDenom(e.Ctx, Denoms[0])
+	x := preVS0.Mul(f)
+	nd.Assert(id+".destination", nd.And(valShares(e, 1, Denoms[0]).Equal(preVS1), valShares(e, 2, Denoms[0]).Equal(preVS2)))
+	nd.Assert(id+".slashed", valShares(e, 0, Denoms[0]).Equal(preVS0.Sub(x)))
+	nd.Assert(id+".asset", as1.TotalValidatorShares.Equal(as0.TotalValidatorShares.Sub(x)))
+	nd.Assert(id+".total", nd.And(as1.TotalTokens.Equal(as0.TotalTokens), moduleBal(e, Denoms[0]).Equal(preCust)))
+	other, found := delegationShares(e, Pos{1, 1, 0})
+	nd.Assert(id+".others", nd.And(found, other.Equal(preOther)))
+}
